@@ -337,6 +337,10 @@ func init() {
 			}
 		}
 	}
+	wkt := "well-known-type parameters (google.protobuf wrappers, FieldMask, Duration, Timestamp) through the real parseQueryParams / parseParam / quote / params.set: the empty text for each of 10 types, a menu of 40 boundary texts (non-BMP strings, 32/64-bit limits, duration range and Go-style units, leap days, RFC 3339 range), symbolic texts of 1..3 (quick) / 1..4 (thorough) bytes for StringValue, BoolValue, Int32Value / UInt32Value, BytesValue, FieldMask; protojson's scalar forms modelled (model_wkt.go), generated messages seen through a fake reflection view"
+	for _, id := range []string{"C03", "C09", "C01"} {
+		ext(id, wkt, HarnessSpec{Name: "VerifH_params_wkt", Covers: []string{"empty-value", "menu-accepted", "menu-rejected", "string-wrapper", "bool-wrapper", "int-wrapper", "int-wrapper-rejected", "bytes-wrapper", "fieldmask", "fieldmask-rejected"}})
+	}
 	utf := "fully symbolic bytes (0x00..0xff, no ASCII restriction): 4 rule sets with unicode literals / variables, path = {/, /é/, /日/} + 1..3 (quick) / 1..5 (thorough) symbolic bytes incl. multi-byte letters, numbers (No, Nl), non-letters, truncated and invalid UTF-8; unicode.IsLetter / IsNumber beyond Latin-1 are encoded exactly from the interpreted package's own range tables (intr_unicode.go)"
 	ext("C01", utf, HarnessSpec{Name: "VerifH_match_utf8", Covers: []string{"dispatched", "captured", "not-dispatched", "non-ascii-symbolic"}})
 	ext("C02", utf, HarnessSpec{Name: "VerifH_match_utf8", Covers: []string{"dispatched", "no-rule-matches", "non-ascii-valid"}})
